@@ -17,8 +17,16 @@ use prost::Message;
 use serde_json::{json, Value};
 use std::collections::HashMap;
 
+/// a payload whose block DECLARES a public key (a `trusting` scope): its bytes depend on the keys the token
+/// already knows, so histories that use it are compared as decoded tokens, not byte for byte
+pub fn contextual(id: &str) -> bool {
+    id == "P7"
+}
+
 pub fn payload_code(id: &str) -> &'static str {
+    static P7: std::sync::OnceLock<&'static str> = std::sync::OnceLock::new();
     match id {
+        "P7" => P7.get_or_init(|| Box::leak(format!("check if right(1) trusting {};", keys::keypair("PK", "ed").public().print()).into_boxed_str())),
         "P1" => "right(1);",
         "P2" => "resource(2);",
         "P6" => "operation(null);",
@@ -34,7 +42,7 @@ pub fn payload_table() -> HashMap<String, Vec<u8>> {
     let mut m = HashMap::new();
     let root = keys::keypair("scratch-root", "ed");
     let next = keys::keypair("scratch-next", "ed");
-    for id in ["P1", "P2", "P6", "P12"] {
+    for id in ["P1", "P2", "P6", "P12", "P7"] {
         let b = Biscuit::builder()
             .code(payload_code(id))
             .unwrap()
@@ -369,6 +377,8 @@ fn replay_honest(c: &mut Concretiser, idx: usize, case: &Value) -> Value {
     // path mask: bit i set = step i goes through the UnverifiedBiscuit API
     let nmasks = 1usize << log.len().saturating_sub(1).min(4);
     let mut checked = 0usize;
+    // histories with a payload that declares a public key: block bytes depend on what earlier blocks declared
+    let byte_exact = !log.iter().any(|op| op["p"].as_str().map(contextual).unwrap_or(false));
     for mask in 0..nmasks {
         let mut real: Vec<Tok> = Vec::new();
         for (i, op) in log.iter().enumerate() {
@@ -378,7 +388,7 @@ fn replay_honest(c: &mut Concretiser, idx: usize, case: &Value) -> Value {
                 Ok(t) => {
                     let bytes = t.to_vec();
                     let want = token_bytes(c, &spec_toks[i]["tok"]);
-                    if bytes != want {
+                    if byte_exact && bytes != want {
                         problems.push(format!(
                             "mask {mask} step {i} ({}): API token differs from the spec token (real {} spec {})",
                             op["op"], hex::encode(&bytes), hex::encode(&want)
